@@ -91,7 +91,7 @@ def _r1(model, res):
                     res.violation('R1', 'function:%s:error-item' % name, m.where(f),
                                   '%s with an error item at position %d (%s arguments, other items unknown numbers) must end in that error on every '
                                   'trace; got %s' % (name, pos, sname, '; '.join(H.describe(bad)[:2])), case={'shape': sname, 'error at': pos}, func=f.name)
-    res.floor('error-item cases', n, 90)
+    res.soft_floor('error-item cases', n, 90)
 
 
 def _r2(model, res):
@@ -126,7 +126,7 @@ def _r2(model, res):
             res.violation('R2', 'function:%s:regrouping' % name, m.where(f),
                           '%s must see exactly the items x0..x3 once each however they are grouped into arguments and nested arrays; flat: %s, '
                           'but %s: %s' % (name, flat, diff[0] if diff else 'flat', results.get(diff[0]) if diff else flat), func=f.name)
-    res.floor('aggregate x shape runs', n, 50)
+    res.soft_floor('aggregate x shape runs', n, 50)
     # the single-range criteria functions select among the same items however the range is nested
     for name in ('SUMIF', 'COUNTIF', 'AVERAGEIF'):
         if name not in model.registry:
@@ -237,12 +237,20 @@ def _r3(model, res):
             ok = getattr(v.args[0], 'name', None) == 'ITEM' and 'CRIT' in repr(v.args[1]) and 'ITEM' not in repr(v.args[1])
             why = 'fnmatch(subject=%r, pattern=%r)' % (v.args[0], v.args[1])
         elif isinstance(v, Atom) and v.op in ('gt', 'lt', 'ge', 'le', 'eq', 'ne'):
-            kinds.add('operator' if any(isinstance(s, tuple) and s and s[0] == 'dict-key' for (t, a, s) in o.notes) else 'equality')
-            ok = getattr(v.args[0], 'name', None) == 'ITEM' and 'CRIT' in repr(v.args[1])
-            # the operator must be the one selected from the table by the criterion's prefix
+            PREFIX = {"'>'": 'gt', "'<'": 'lt', "'>='": 'ge', "'<='": 'le', "'='": 'eq', "'<>'": 'ne'}
+            # the criterion's prefix selects the operator: through a table lookup, or through an if-chain comparing the prefix
+            chosen = [a for (t, a, s) in o.notes if isinstance(s, tuple) and s and s[0] == 'dict-key']
             for (t, a, s) in o.notes:
-                if isinstance(s, tuple) and s and s[0] == 'dict-key':
-                    want = {"'>'": 'gt', "'<'": 'lt', "'>='": 'ge', "'<='": 'le', "'='": 'eq', "'<>'": 'ne'}.get(a)
+                if a is True and isinstance(s, Atom) and s.op == 'eq' and len(s.args) == 2:
+                    cs = [x for x in s.args if isinstance(x, Const) and isinstance(x.value, str) and repr(x.value) in PREFIX]
+                    others = [x for x in s.args if not isinstance(x, Const)]
+                    if cs and others and 'ITEM' not in repr(others[0]):
+                        chosen.append(repr(cs[0].value))
+            kinds.add('operator' if chosen else 'equality')
+            ok = getattr(v.args[0], 'name', None) == 'ITEM' and 'CRIT' in repr(v.args[1])
+            # the operator must be the one selected by the criterion's prefix
+            for a in chosen:
+                    want = PREFIX.get(a)
                     ok = ok and want == v.op
             why = '%s(%r, %r)' % (v.op, v.args[0], v.args[1])
         elif isinstance(v, Const) and isinstance(v.value, bool):
